@@ -233,7 +233,7 @@ class FunctionRun:
             self.outcomes[ename] = self.outcomes.get(ename, 0) + 1
             match = None
             for k in c.exsures:
-                kc = interp.global_lookup(k, env.module)
+                kc = interp.pack.exc_by_dotted(k) if "." in k else interp.global_lookup(k, env.module)
                 if val.cls.is_sub(kc):
                     match = k
                     break
